@@ -11,9 +11,14 @@ import common, odes
 TOL = 1e-4
 
 
-def curves(name, G, rho, tau, gamma, tmax, tcount, **kw):
+def curves(name, G, rho, tau, gamma, tmax, tcount, tmin=0.0, **kw):
+    """(S, I[, R]) over a report window of length `tmax` that STARTS AT `tmin`: the models are autonomous, so the curves on
+    [tmin, tmin + tmax] from a state given at tmin are those on [0, tmax] — whatever integrator a model uses"""
     import EoN
-    res = odes.call(name, G, dict(rho=rho), tau, gamma, 0.0, tmax, tcount, False, **kw)
+    res = odes.call(name, G, dict(rho=rho), tau, gamma, tmin, tmin + tmax, tcount, False, **kw)
+    t = np.asarray(res[0], dtype=float)
+    if abs(t[0] - tmin) > 1e-12 or abs(t[-1] - (tmin + tmax)) > 1e-9:
+        raise AssertionError("report times of %s do not span [tmin, tmax]" % name)
     return [np.asarray(x, dtype=float) for x in res[1:]]
 
 
@@ -83,7 +88,7 @@ def run(ctx):
             res = []
             for nm in names:
                 try:
-                    res.append((nm, curves(nm, G, rho, tau, gamma, 8.0, 17)))
+                    res.append((nm, curves(nm, G, rho, tau, gamma, 8.0, 17, tmin=[0.0, 2.5, -1.0][k % 3])))
                 except Exception as e:
                     ctx.violation("SIR hierarchy: %s raised %s" % (nm, type(e).__name__), dict(rep, model=nm))
             compare(ctx, rep, "SIR-hierarchy", res, N)
@@ -120,8 +125,10 @@ def run(ctx):
         N = G.order()
         rho = ctx.rng.choice([0.1, 0.25])
         tau, gamma = ctx.rng.choice([(0.4, 1.0), (1.0, 0.5)])
-        rep = dict(entry="regular-reductions", graph=dict(kind="regular", degree=d, n=N, seed=seed), rho=rho, tau=tau, gamma=gamma)
+        tmin = [0.0, 1.5, -2.0][k % 3]          # two windows in three do not start at 0
+        rep = dict(entry="regular-reductions", graph=dict(kind="regular", degree=d, n=N, seed=seed), rho=rho, tau=tau, gamma=gamma, tmin=tmin)
         ctx.case(rep, nontrivial=True)
+        ctx.count("regular:tmin=%s" % tmin)
         for kind_ in ("SIS", "SIR"):
             pair = ["%s_homogeneous_pairwise_from_graph", "%s_heterogeneous_pairwise_from_graph", "%s_compact_pairwise_from_graph", "%s_pair_based"]
             mf = ["%s_homogeneous_meanfield_from_graph", "%s_heterogeneous_meanfield_from_graph", "%s_individual_based"]
@@ -130,7 +137,7 @@ def run(ctx):
                 for nm in names:
                     nm = nm % kind_
                     try:
-                        res.append((nm, curves(nm, G, rho, tau, gamma, 4.0, 9)))
+                        res.append((nm, curves(nm, G, rho, tau, gamma, 4.0, 9, tmin=tmin)))
                     except Exception as e:
                         ctx.violation("regular reductions: %s raised %s" % (nm, type(e).__name__), dict(rep, model=nm))
                 compare(ctx, rep, "regular-%s-%s" % (kind_, group), res, N)
